@@ -9,6 +9,7 @@ C04 — Position hash is a pure function of the position.
 -/
 import ChessVerif.Props.C04.Keys
 import ChessVerif.Props.C06
+import ChessVerif.Proofs.Legal.Reach
 
 namespace Chess.Props.C04
 open Chess
@@ -42,5 +43,25 @@ theorem parse_hash (s : List Byte) (b : Board) (h : Fen.parseFen s = .ok b) :
 /-- the hash depends on the clocks, the pin set and the checkers in no way -/
 theorem hash_ignores (b : Board) (h f : Nat) (p c : BB) :
     ({ b with half := h, full := f, pinned := p, checkers := c } : Board).hash = b.hash := rfl
+
+/-- **incremental maintenance**: after any pseudo-legal move on a well-formed board the hash kept by
+`move_unchecked_into` equals the from-scratch hash of the new placement (captures, promotion, the
+en-passant victim and the castling rook all go through the one xor helper) -/
+theorem move_hash (b : Board) (h : b.WF = true) (m : Move) (κ : Spec.Position.Kind)
+    (hps : (Spec.abs b).pseudo m = some κ) :
+    (b.moveUnchecked m).zobrist = (b.moveUnchecked m).raw.pieceHash := Legal.move_hash b h m κ hps
+
+/-- hence, for every position reachable by legal play, the stored hash is the from-scratch hash … -/
+theorem reachable_hash (b₀ b : Board) (h₀ : b₀.WF = true) (hr : Board.Reachable b₀ b) :
+    b.zobrist = b.raw.pieceHash := by
+  have := Legal.reachable_WF b₀ b h₀ hr
+  simp only [Board.WF, Bool.and_eq_true, beq_iff_eq] at this
+  exact this.2
+
+/-- … and boards that compare equal hash equal whatever move orders produced them -/
+theorem eq_hash_reachable (a₀ a b₀ b : Board) (ha₀ : a₀.WF = true) (hb₀ : b₀.WF = true)
+    (hra : Board.Reachable a₀ a) (hrb : Board.Reachable b₀ b) (h : Board.beq a b = true) :
+    a.hash = b.hash :=
+  eq_hash_WF a b h (Legal.reachable_WF a₀ a ha₀ hra) (Legal.reachable_WF b₀ b hb₀ hrb)
 
 end Chess.Props.C04
